@@ -64,11 +64,18 @@ func (d *AV1Depacketizer) Unmarshal(payload []byte) (buff []byte, err error) {
 		var lengthField, n int
 		if obuCount == 0 || !isLast {
 			obuSizeVal, nVal, err := obu.ReadLeb128(payload[offset:])
-			lengthField = int(obuSizeVal) //nolint:gosec // G115 false positive
-			n = int(nVal)                 //nolint:gosec // G115 false positive
 			if err != nil {
 				return nil, err
 			}
+			// A length that exceeds the payload may not even fit an int: refuse it before converting.
+			if obuSizeVal > uint(len(payload)) {
+				return nil, fmt.Errorf(
+					"%w: OBU size %d exceeds payload length %d",
+					errShortPacket, obuSizeVal, len(payload),
+				)
+			}
+			lengthField = int(obuSizeVal) //nolint:gosec // G115 checked above
+			n = int(nVal)                 //nolint:gosec // G115 false positive
 
 			offset += n
 			if obuCount == 0 && offset+lengthField == len(payload) {
@@ -142,6 +149,13 @@ func (d *AV1Depacketizer) Unmarshal(payload []byte) (buff []byte, err error) {
 			obuSize, n, err := obu.ReadLeb128(obuBuffer[obuHeader.Size():])
 			if err != nil {
 				return nil, err
+			}
+			// An obu_size that exceeds the element may not even fit an int: refuse it before converting.
+			if obuSize > uint(len(obuBuffer)) {
+				return nil, fmt.Errorf(
+					"%w: OBU size %d exceeds element length %d",
+					errShortPacket, obuSize, len(obuBuffer),
+				)
 			}
 
 			// We validate the obu_size_field if it is present.
